@@ -81,6 +81,39 @@ def check_orduse(crate, rep, cfg):
     ok = any(x.endswith("::insert") for x in bt)
     rep.add("C16.ORDUSE", "C16.ORDUSE:unique:btreeset", ok, uq.where(0), "unique dedups through BTreeSet<Value>::insert (with or without a contains first) (equality classes of Ord::cmp == classes of `==`, C15.ORD)"
             + ("" if ok else " — VIOLATED: %s" % bt))
+    # ... and through nothing else: the decision to keep an element is the answer of that set alone (a second structure keyed by a
+    # conversion of the value — a hash key, a string, a rounded number — has its own equality classes)
+    from props.c08 import gate_of
+    utr = Tracer(uq)
+    pushes = [(bb, t) for bb, t in uq.calls() if callee_def(t).endswith("Vec::<T, A>::push")]
+    ok = bool(pushes)
+    why = "no push into the result"
+    for bb, t in pushes:
+        g = gate_of(uq, bb)
+        if g is None:
+            ok, why = False, "the push at %s is unconditional" % uq.where(bb)
+            continue
+        todo = [l for l in utr.operand(uq.term(g)["op"])]
+        seen_l = set()
+        while todo:
+            l = todo.pop()
+            if l in seen_l or l.kind in ("const", "cycle"):
+                continue
+            seen_l.add(l)
+            if l.kind == "op" and l.detail[0] in ("un", "bin"):
+                rv = uq.blocks[l.detail[2]]["s"][l.detail[3]]["rv"]
+                for o in ([rv["a"]] if "a" in rv else [rv["l"], rv["r"]]):
+                    todo.extend(utr.operand(o))
+                continue
+            ct = uq.term(l.detail[2]) if l.kind == "call" else None
+            if not (ct and "BTreeSet" in callee_def(ct) and callee_def(ct).rsplit("::", 1)[-1] in ("insert", "contains") and "value::Value" in str(ct["f"].get("targs"))):
+                ok, why = False, "keeping an element depends on %s" % leaf_str(l)
+    other = sorted({callee_def(t) for bb, t in uq.calls() if any(x in callee_def(t) for x in ("HashSet", "HashMap", "BTreeMap", "IndexMap", "IndexSet"))
+                    or ("BTreeSet" in callee_def(t) and callee_def(t).rsplit("::", 1)[-1] in ("insert", "contains", "get", "replace") and "value::Value" not in str(t["f"].get("targs")))})
+    if other:
+        ok, why = False, "a second membership structure is used: %s" % other[:2]
+    rep.add("C16.ORDUSE", "C16.ORDUSE:unique:decided-by-the-value-set-alone", ok, uq.where(pushes[0][0]) if pushes else uq.where(0), "an element is kept exactly when "
+            "BTreeSet<Value>::insert/contains says it is new; no other set or map takes part" + ("" if ok else " — VIOLATED: " + why))
     # join / split are the standard library's inverse pair: where separators go is decided by `[String]::join` and `str::split`, with
     # the separator taken from the keyword argument, over every element in order (no hand-written separator logic to get wrong)
     from engine import kwarg_locals
